@@ -472,8 +472,7 @@ func dictRow(idx int, row map[string]any, res *vh.Result) {
 		}
 		for i := range ops {
 			if !strings.Contains(all, fmt.Sprintf(`{"n":%d}`, i+2)) {
-				res.Violate("C11", "dict:queued-frame-lost", fmt.Sprintf("push %d queued before a graceful close did not reach the client (scenario %s)", i+2, vh.J(sc)), replay)
-				res.Done(1, 0)
+				fail(fmt.Sprintf("push %d queued before a graceful close did not reach the client", i+2))
 				return
 			}
 		}
